@@ -32,6 +32,7 @@ ASSUMPTIONS = ['field-wise equality: arrays by shape and value with NaN equal to
 KINDS = ['rdms', 'rdms', 'dataset', 'temporal', 'model', 'result', 'result', 'guard']
 UNI = ['é', 'ü', 'ß', 'λ', '日本', 'ñandú', '😀x', 'a b', 'Ωmega']
 ASC = ['a', 'b', 'cond', 'x1', 'long_name', 'Z', 'sess-2', '', 'A b']
+NUMSTR = ['01', '02', '10', '007', '1e3', '3.50', '-2', 'nan', 'inf']      # strings that look like numbers must stay strings
 
 
 # -------------------------------------------------------------------------------- generators (plain python specs)
@@ -49,7 +50,7 @@ def gnum(rng):
 
 
 def gdescval(rng, depth=0):
-    kinds = ['str', 'int', 'float', 'bool', 'none', 'lstr', 'lint', 'lfloat', 'arr', 'mat', 'tupi', 'tups', 'npi', 'npf', 'arrs']
+    kinds = ['str', 'int', 'float', 'bool', 'none', 'lstr', 'lint', 'lfloat', 'arr', 'mat', 'tupi', 'tups', 'npi', 'npf', 'arrs', 'lnumstr']
     if depth == 0:
         kinds += ['dict']
     k = rng.choice(kinds)
@@ -66,6 +67,8 @@ def gdescval(rng, depth=0):
         return ('none', None)
     if k == 'lstr':
         return ('list', [gstr(rng) for _ in range(n)])
+    if k == 'lnumstr':
+        return (rng.choice(['list', 'tuple', 'arrs']), [rng.choice(NUMSTR) for _ in range(n)])
     if k == 'lint':
         return ('list', [rng.randint(-5, 20) for _ in range(n)])
     if k == 'lfloat':
@@ -94,8 +97,10 @@ def gdesc(rng):
 def glistdesc(rng, n):
     out = {}
     for i in range(rng.randint(0, 2)):
-        k = rng.choice(['str', 'int', 'float', 'arr', 'arrs'])
-        if k == 'str':
+        k = rng.choice(['str', 'int', 'float', 'arr', 'arrs', 'numstr'])
+        if k == 'numstr':
+            v = ('list', [rng.choice(NUMSTR) for _ in range(n)])
+        elif k == 'str':
             v = ('list', [gstr(rng) for _ in range(n)])
         elif k == 'int':
             v = ('list', [rng.randint(0, 4) for _ in range(n)])
@@ -178,6 +183,17 @@ def build_rdms(c):
              pattern_descriptors=realdict(c['pdesc']), dissimilarity_measure=c['measure'])
     rs = np.random.RandomState(c['seed'])
     for op in c['ops']:
+        try:
+            r = one_rdms_op(r, op, rs)
+        except Exception:
+            pass        # the history is only a way to obtain objects; an operation that rejects these descriptors is skipped
+    return r
+
+
+def one_rdms_op(r, op, rs):
+    from rsatoolbox.rdm import concat
+    from rsatoolbox.rdm.transform import positive_transform
+    if True:
         n = r.n_cond
         if op == 'subset_pattern' and n > 3:
             r = r.subset_pattern('index', sorted(rs.choice(n, n - 1, replace=False).tolist()))
